@@ -175,6 +175,7 @@ def verify_target(repo_root: str, relpath: str, qualname: str, contract: dict, r
         obs = []
         eng = None
         all_unsupported, modelled, paths = [], set(), 0
+        assumed_used, callee_used = set(), set()
         for vi, var in enumerate(variants):
             c2 = contract
             if var is not None:
@@ -190,12 +191,16 @@ def verify_target(repo_root: str, relpath: str, qualname: str, contract: dict, r
             all_unsupported += [(l, (f'[variant {vi}] ' if var is not None else '') + w) for l, w in eng.unsupported]
             modelled |= eng.stmts_modelled
             paths += eng.paths_done
+            assumed_used |= eng.assumed_used
+            callee_used |= eng.callee_used
         eng.unsupported, eng.stmts_modelled, eng.paths_done = all_unsupported, modelled, paths
         body_stmts = [n for n in ast.walk(node) if isinstance(n, ast.stmt) and n is not node
                       and not (isinstance(n, ast.Expr) and isinstance(n.value, ast.Constant))]
         rep['stmts_total'] = len({n.lineno for n in body_stmts})
         rep['stmts_modelled'] = len(eng.stmts_modelled & {n.lineno for n in body_stmts})
         rep['paths'] = eng.paths_done
+        rep['assumed_used'] = sorted(assumed_used)
+        rep['callee_contracts_used'] = sorted(callee_used)
         rep['unsupported'] = [dict(lineno=l, why=w) for l, w in eng.unsupported]
         # canary: the entry state must be satisfiable and `False` must be refutable there
         can = Obligation('canary-false-is-refuted', 'canary', eng.entry_pc, z3.BoolVal(False), node.lineno, qualname)
